@@ -331,7 +331,15 @@ func runC19(w *World) *Result {
 					}
 				}
 			default:
-				if !strings.Contains(name, "parseOptions") {
+				// the function of the command that reads the options (no parameters: it reads the
+				// argument vector) is where the output directory comes from
+				optionReader := false
+				for _, c := range ps.calls[name] {
+					if callee := c.Call.StaticCallee(); callee != nil && pkgOf(callee) == mainPkg && len(callee.Params) == 0 && callee.Signature.Results().Len() == 1 {
+						optionReader = true
+					}
+				}
+				if !optionReader {
 					problems = append(problems, "path also depends on "+name)
 				}
 			}
